@@ -2,10 +2,10 @@
 
 CHECK = {
     "harnesses": [
-        {"exe": "c15_stream", "flavour": "plain", "cases": (6000, 60000), "procs": (3, 3), "subs": ["tensor", "value", "config", "model"]},
-        {"exe": "c15_stream", "flavour": "asan", "cases": (400, 3000), "procs": (1, 1), "subs": ["tensor", "value", "config", "model"]},
+        {"exe": "c15_stream", "flavour": "plain", "cases": (6000, 240000), "procs": (3, 8), "subs": ["tensor", "value", "config", "model"]},
+        {"exe": "c15_stream", "flavour": "asan", "cases": (400, 20000), "procs": (1, 4), "subs": ["tensor", "value", "config", "model"]},
     ],
-    "fuzzers": [{"exe": "fz_stream", "runs": (40000, 1500000), "max_len": 64, "jobs": (2, 2)}],
+    "fuzzers": [{"exe": "fz_stream", "runs": (40000, 8000000), "max_len": 64, "jobs": (2, 8)}],
     "min_nontrivial": (1500, 40000),
     "timeout": (900, 7200),
     "rule": ("rapidcheck-generated objects in four sub-checks: (tensor) 10 scalar types x rank 1..5 x dims 0..6 with payloads given as raw bytes "
